@@ -480,13 +480,30 @@ def do_isolate(path):
     builders = {block_type.BlockType.CELL: montepy.Cell, block_type.BlockType.SURFACE: surface_builder.surface_builder,
                 block_type.BlockType.DATA: parse_data}
 
+    def clean(l):
+        b = l.encode("utf-8", errors="surrogateescape")
+        return bytes(c if c < 128 else 32 for c in b).decode("ascii")
+
+    norm = [clean(l.rstrip("\r")).expandtabs(8)[:128].rstrip() for l in text.split("\n")]
+    cursor = [0]
+
+    def locate(inp):
+        """1-based number of the first line of the input in the file (MontePy's own line_number is off after a
+        message block): the next place where the input's lines stand"""
+        want = [l.rstrip() for l in inp.input_lines]
+        for a in range(cursor[0], len(norm) - len(want) + 1):
+            if norm[a:a + len(want)] == want:
+                cursor[0] = a + len(want)
+                return a + 1
+        return inp.line_number
+
     def f():
         cards = []
         first = None
         for inp in input_syntax_reader.read_input_syntax(MCNP_InputFile(path), (6, 2, 0)):
             if not isinstance(inp, mcnp_input.Input) or not inp.input_lines:
                 continue
-            d = {"block": inp.block_type.value, "line": inp.line_number, "n": len(inp.input_lines), "exc": None}
+            d = {"block": inp.block_type.value, "line": locate(inp), "n": len(inp.input_lines), "exc": None}
             try:
                 builders[inp.block_type](inp)
             except _Alarm:
@@ -997,10 +1014,10 @@ def spec_read(text):
         mats = set()
         trs = set()
         for w in out["data"]:
-            m = re.match(r"^m(\d+)$", w)
+            m = re.match(r"^[^a-z0-9]*m\+?0*(\d+)$", w)      # `m+8`, `m08`, `?m8` are read as material 8 by MontePy: no demand is made about them
             if m:
                 mats.add(int(m.group(1)))
-            m = re.match(r"^\*?tr(\d+)$", w)
+            m = re.match(r"^[^a-z0-9]*tr\+?0*(\d+)$", w)
             if m:
                 trs.add(int(m.group(1)))
         for c in cells:
@@ -1506,11 +1523,11 @@ def run(ctx):
                 ctx.fail(prepare_failure(c, f, r, iso))
         marks["corpus"] = round(time.time() - t_start, 1)
         # ---- 5. search: single corruptions of generated well-formed files
-        budget = (45 if quick else 900)
+        budget = (40 if quick else 900)
         deadline = time.time() + budget
         nbase = 400 if quick else 40000
         per_token = 1 if quick else 0
-        batch = 12 if quick else 8
+        batch = 6 if quick else 8
         i = 0
         nviol = 0
         seen_sig = {}
